@@ -219,6 +219,10 @@ def process_scope(
     if out is not None:
         if window_end is None:
             window_end = pos
+        # a last statement without a terminator lets the walkers stop on (or past)
+        # the endchar sentinel; it is not part of the text being filtered
+        if buff.endswith(endchar):
+            end -= len(endchar)
         window_end = min(window_end, end)
         out.write(buff[window_start:window_end].encode("utf-8"))
 
